@@ -1058,7 +1058,16 @@ func ruleTimersRearmed(c *Check, p *Prog, rule string) {
 				}
 				tname := tm.String()
 				isReset := func(x *Node) bool {
-					return CallName(x) == "(*time.Timer).Reset" && RecvTerm(x) != nil && RecvTerm(x).String() == tname
+					if CallName(x) == "(*time.Timer).Reset" && RecvTerm(x) != nil && RecvTerm(x).String() == tname {
+						return true
+					}
+					// a timer made anew on the way back to the wait (one timer per iteration) is armed
+					if CallName(x) == "time.NewTimer" && x.Kind == NInstr {
+						if v, ok := x.In.(ssa.Value); ok && TermOf(v, x.Ctx).String() == tname {
+							return true
+						}
+					}
+					return false
 				}
 				inst := fnShort(fn) + " ⟂ " + trunc(tname, 40) + " re-armed before waiting again"
 				from := caseEdges
